@@ -11,9 +11,15 @@ PROPS = ('C01', 'C05', 'C11', 'C15', 'C16')
 class Universe:
     """m task objects (uids 0..m-1) and k WBS objects (their hidden roots are uids m..m+k-1)"""
 
-    def __init__(self, ids, prio, nw):
+    def __init__(self, ids, prio, nw, kinds=None, alias=False):
         from pjplan import Task, WBS
-        self.tasks = [Task(i, name=f't{n}', prio=p) for n, (i, p) in enumerate(zip(ids, prio))]
+        # `kinds`: how an id is spelled - the int itself, the float equal to it, or the bool equal to it (ids compare with ==, so 1, 1.0
+        # and True are one id); `alias`: equal argument lists are one list object (a caller re-using its own list for several calls)
+        kinds = kinds or ['int'] * len(ids)
+        spell = lambda i, k: float(i) if k == 'float' else (bool(i) if k == 'bool' and i in (0, 1) else i)
+        self.tasks = [Task(spell(i, k), name=f't{n}', prio=p) for n, (i, p, k) in enumerate(zip(ids, prio, kinds))]
+        self.alias = alias
+        self.arglists = {}
         for n, t in enumerate(self.tasks):
             # `rank`: like prio, but unset (None) on every third task - sorting siblings by it must be refused (None is not comparable)
             t.rank = None if n % 3 == 2 else prio[n]
@@ -41,7 +47,7 @@ class Universe:
         rows = []
         for o in self.objs:
             raw_parent = getattr(o, '_Task__parent', None)
-            rows.append([o.id, self.u(raw_parent), [self.u(c) for c in o.children],
+            rows.append([int(o.id), self.u(raw_parent), [self.u(c) for c in o.children],
                          [self.u(c) for c in o.predecessors], [self.u(c) for c in o.successors],
                          None if o.wbs is None else self.m + self.wbs.index(o.wbs)])
         return {'t': rows}
@@ -62,7 +68,11 @@ class Universe:
     def apply(self, op):
         k = op[0]
         T = self.obj
-        L = lambda us: [T(u) for u in us]
+
+        def L(us):
+            if not self.alias:
+                return [T(u) for u in us]
+            return self.arglists.setdefault(tuple(us), [T(u) for u in us])
         one_or_list = lambda us, single: T(us[0]) if single and len(us) == 1 else L(us)
         if k == 'setParent':
             T(op[1]).parent = T(op[2])
@@ -195,7 +205,7 @@ class Universe:
                 rank = {v: i for i, v in enumerate(sorted(set(strs.values())))}
                 op[2] = [[self.u(t), rank[strs[id(t)]]] for t in self.holder_list(op[1])]
             else:
-                op[2] = [[self.u(t), getattr(t, key)] for t in self.holder_list(op[1])]
+                op[2] = [[self.u(t), int(t.id) if key == 'id' else getattr(t, key)] for t in self.holder_list(op[1])]
         return op
 
 
@@ -301,7 +311,7 @@ def rand_op(u, rnd):
     if k == 7:
         h = holder()
         ks = kids(h)
-        ids = [u.obj(rnd.choice(ks)).id if ks and rnd.random() < 0.85 else rnd.randrange(20) for _ in range(rnd.randrange(0, 4))]
+        ids = [int(u.obj(rnd.choice(ks)).id) if ks and rnd.random() < 0.85 else rnd.randrange(20) for _ in range(rnd.randrange(0, 4))]
         return ['chReorder', h, ids, stale]
     if k in (8, 9):
         t = rt()
@@ -511,6 +521,23 @@ def _directed_ops(u, rnd):
                 for y in members[:3]:
                     add('stale-owner-orphan', ['setParent', U(t), U(y)])
                 add('stale-owner-orphan', ['chAppend', wi, U(t), 'fresh'])
+    # the caller re-uses one list object for several calls (`alias`): give the predecessors / successors of one task to another task as well,
+    # then add a link to one of the two from the other side
+    if u.alias:
+        for t in T:
+            for name, mine, other in (('setPreds', t.predecessors, 'suAppend'), ('setSuccs', t.successors, 'prAppend')):
+                l = [U(x) for x in mine]
+                if l and tuple(l) in u.arglists:
+                    for t2 in T:
+                        if t2 is not t and all(t2 is not x for x in mine):
+                            add('shared-argument-list', [name, U(t2), l])
+                    for y in T:
+                        if y is not t and all(y is not x for x in mine):
+                            add('shared-argument-list', [other, U(y), U(t)])
+        for t in T[:4]:
+            for x in T[:4]:
+                if x is not t:
+                    add('shared-argument-list', ['setPreds', U(t), [U(x)]])
     # a task whose stored parent does not list it (only an ill-behaved implementation gets here): put it back under that parent, and bring
     # a free task with the same id there first
     for t in T:
@@ -534,7 +561,7 @@ def _directed_ops(u, rnd):
                 add('valid-list-edit', ['chMove', h, [t], anchor, None, True, st])
                 add('valid-list-edit', ['chMove', h, [t], None, anchor, True, st])
                 add('valid-list-edit', ['chSort', h, None, rnd.random() < 0.5, rnd.choice(['prio', 'id'] + (['rank'] if getattr(u, 'allow_rank', False) else [])), st])
-                add('valid-list-edit', ['chReorder', h, [u.obj(k).id for k in rnd.sample(ks, rnd.randrange(1, len(ks) + 1))], st])
+                add('valid-list-edit', ['chReorder', h, [int(u.obj(k).id) for k in rnd.sample(ks, rnd.randrange(1, len(ks) + 1))], st])
             two = rnd.sample(ks, 2)
             rest = [k for k in ks if k not in two]
             if rest:
@@ -548,7 +575,7 @@ def _directed_ops(u, rnd):
             if len(ks) >= 2:
                 t = rnd.choice(ks)
                 add('stale-facade-call', ['chMove', h, [t], rnd.choice([k for k in ks if k != t]), None, True, 'stale'])
-                add('stale-facade-call', ['chReorder', h, [u.obj(ks[-1]).id], 'stale'])
+                add('stale-facade-call', ['chReorder', h, [int(u.obj(ks[-1]).id)], 'stale'])
                 add('stale-facade-call', ['chSort', h, None, False, 'prio', 'stale'])
     if not pats:
         return None
@@ -602,7 +629,7 @@ def steer(u, op, rnd, p=0.35):
 
 
 def new_universe(case):
-    return Universe(case['ids'], case['prio'], case['nw'])
+    return Universe(case['ids'], case['prio'], case['nw'], case.get('kinds'), case.get('alias', False))
 
 
 def random_case(prop, rng, tier):
@@ -611,8 +638,26 @@ def random_case(prop, rng, tier):
     ids = [rng.randrange(pool) if rng.random() < 0.5 else 10 + i for i in range(m)]
     prio = [rng.randrange(3) for _ in range(m)]
     case = {'ids': ids, 'prio': prio, 'nw': rng.randrange(1, 4), 'ops': []}
+    if rng.random() < 0.15:
+        case['kinds'] = [rng.choice(['int', 'int', 'float', 'bool']) for _ in ids]
+    if rng.random() < 0.3:
+        case['alias'] = True
     u = new_universe(case)
     u.allow_rank = prop in ('C15', 'C16')
+    if m >= 4 and rng.random() < 0.08:
+        # a tree outside every WBS, a receiver below its top, and a free task linked to the TOP: every way of making it a child of the
+        # receiver must be refused before anything is touched
+        top, mid, old, x = rng.sample(range(m), 4)
+        script = [['setParent', mid, top], ['setParent', old, mid], [rng.choice(['prAppend', 'suAppend']), x, top],
+                  rng.choice([['chInsert', mid, 0, x, 'fresh'], ['setChildren', mid, [x, old]], ['setChildren', mid, [x]], ['floordiv', mid, [x], True]])]
+        for op in script:
+            case['ops'].append(op)
+            try:
+                u.apply(op)
+            except common.MachineryError:
+                raise
+            except Exception:  # noqa
+                pass
     # constructive prefix (two cases in three): grow a forest of some depth and a few links with mostly legal calls, so that
     # the random calls that follow meet ancestors, descendants and linked subtrees at distance > 1
     prefix = []
@@ -638,6 +683,19 @@ def random_case(prop, rng, tier):
             raise
         except Exception:  # noqa
             pass
+    if case.get('alias') and m >= 4 and rng.random() < 0.6:
+        # the caller's own list object handed to two tasks, then a link added to one of them from the other side
+        t1, t2, x, y = rng.sample(range(m), 4)
+        script = [['setPreds', t1, [x]], ['setPreds', t2, [x]], ['suAppend', y, t1]] if rng.random() < 0.5 else \
+                 [['setSuccs', t1, [x]], ['setSuccs', t2, [x]], ['prAppend', y, t1]]
+        for op in script:
+            case['ops'].append(op)
+            try:
+                u.apply(op)
+            except common.MachineryError:
+                raise
+            except Exception:  # noqa
+                pass
     focused = bool(prefix) and rng.random() < 0.7
     tail = rng.randrange(3, 10) if focused else rng.randrange(10, 31 if tier == 'quick' else 41)
     for _ in range(tail):
